@@ -11,6 +11,105 @@ QUICK = (20, 1000, 200, 3, 3)
 THOROUGH = (16, 0, 2000, 5, 3)
 
 
+NETS = ["10.9.0.1/24", "192.168.100.129/27", "192.168.123.201/29", "100.100.100.250/28", "172.16.0.1/16", "10.0.0.3/27",
+        "10.9.0.2/30", "223.255.255.129/25", "192.168.255.254/24", "10.250.250.100/28", "111.111.111.111/28", "10.9.0.14/28",
+        "198.51.100.200/29", "203.0.113.222/27", "172.31.255.253/30", "10.9.0.5/29"]
+
+
+def scn_assign(params):
+    """Engine A: what the real server *tells* its clients.  Model clients log in until the pool is exhausted; every login
+    reply 'server-client-mtu-netmask' must name the configured server address and width and a client address that is distinct,
+    inside the subnet, not the server / network / broadcast address and equal to the address the server's table holds for
+    that slot; one more version request gets VFUL; a packet offered for each told address reaches exactly its session."""
+    import ipaddress
+    import random
+    from simnet import mclient, proto, scen
+    seed = params["seed"]
+    rng = random.Random(params["rseed"])
+    out = {"violations": [], "nontrivial": [], "stats": {"assign_logins": 0, "assign_deliveries_checked": 0}, "evaluations": 0, "sets": {}}
+    sim = scen.Sim("c18a-%d" % params["idx"], seed)
+    try:
+        k = sim.k
+        srv = sim.server(tun=params["tun"])
+        if not srv.alive():
+            out["inconclusive"] = "server-died-at-start"
+            return out
+        sip, bits = params["tun"].split("/")
+        net = ipaddress.ip_network(params["tun"], strict=False)
+        want = min(16, net.num_addresses - 3)
+        wit = {"seed": seed, "params": params}
+        told = {}
+        mcs = []
+        for j in range(want + 2):
+            mc = mclient.ModelClient("10.53.%d.%d" % (6 + j // 200, j % 200 + 1), (scen.SERVER_IP, 53), sim.domain, sim.password,
+                                     random.Random(rng.getrandbits(32)), qtype=rng.choice(list(proto.QTYPES.values())))
+            k.add_actor(mc.ip, mc)
+            pl = mc.version()
+            if not pl or pl[:4] != b"VACK":
+                if j < want:
+                    out["violations"].append(("C18:told:pool-smaller", "only %d of %d sessions could be created on %s (answer %r)" % (j, want, params["tun"], (pl or b"")[:8]), wit))
+                break
+            if j >= want:
+                out["violations"].append(("C18:told:pool-larger", "a %d-th session was created on %s (pool size %d)" % (j + 1, params["tun"], want), wit))
+                break
+            r = mc.login()
+            if mc.login_reply is None:
+                out["violations"].append(("C18:told:login-refused", "login of session %d on %s answered %r" % (j, params["tun"], r), wit))
+                break
+            out["stats"]["assign_logins"] += 1
+            out["evaluations"] += 1
+            f = r.split(b"-")
+            try:
+                t_srv, t_cli, t_mtu, t_bits = f[0].decode(), f[1].decode(), int(f[2]), int(f[3])
+                a = ipaddress.ip_address(t_cli)
+            except (ValueError, IndexError, UnicodeDecodeError):
+                out["violations"].append(("C18:told:malformed", "login reply %r on %s" % (r[:60], params["tun"]), wit))
+                break
+            row = srv.snapshot[mc.userid] if mc.userid < len(srv.snapshot) else None
+            import socket
+            import struct
+            table_ip = socket.inet_ntoa(struct.pack("<I", row["tun_ip"])) if row else None
+            bad = None
+            if t_srv != sip or t_bits != int(bits):
+                bad = "names server %s/%d, configured %s" % (t_srv, t_bits, params["tun"])
+            elif a not in net or a in (net.network_address, net.broadcast_address) or t_cli == sip:
+                bad = "client address %s is not a usable host address of %s other than the server's" % (t_cli, net)
+            elif t_cli in told:
+                bad = "client address %s was already told to session %d" % (t_cli, told[t_cli])
+            elif table_ip != t_cli:
+                bad = "client address %s differs from the address the server routes to that slot (%s)" % (t_cli, table_ip)
+            if bad:
+                out["violations"].append(("C18:told:" + bad.split(" ")[0] + "-" + bad.split(" ")[1], "login reply %r of session %d on %s: %s" % (r[:50], j, params["tun"], bad), wit))
+                break
+            told[t_cli] = j
+            mc.tun_ip = t_cli
+            mcs.append(mc)
+        if not out["violations"]:
+            # routing by the told addresses
+            for j, mc in enumerate(mcs):
+                if rng.random() < 0.6 or j < 2:
+                    fr = proto.make_frame(sip, mc.tun_ip, (0xC18 << 20) | (params["idx"] << 8) | j, 60, "random", rng)
+                    k.offer_tun("srv", fr, None)
+                    k.run(k.now + 2000)
+                    got = []
+                    for m2 in mcs:
+                        m2.pump(60000, 20000)
+                        if any(x == fr for _t, x in m2.delivered):
+                            got.append(m2.userid)
+                    out["stats"]["assign_deliveries_checked"] += 1
+                    out["evaluations"] += 1
+                    if got != [mc.userid]:
+                        out["violations"].append(("C18:told:packet-for-told-address-misrouted",
+                                                  "a packet for %s (told to session %d) on %s was delivered to sessions %r" % (mc.tun_ip, mc.userid, params["tun"], got), wit))
+                        break
+            out["nontrivial"].append(repr(("told", params["tun"], len(mcs))))
+        if params["idx"] < 2:
+            out["sample"] = {"engine": "A", "tun": params["tun"], "sessions": len(mcs), "told": sorted(told)[:4]}
+        return out
+    finally:
+        sim.close()
+
+
 def run(ctx):
     res = core.Result()
     exh_lo, nrand_mid, nrand_big, nbases, rounds = THOROUGH if ctx.thorough else QUICK
@@ -24,7 +123,10 @@ def run(ctx):
                 "authenticated && !disabled && now-last_pkt < 60, else -1'. Server positions: every position for "
                 "/%d../30%s; boundary positions + seeded random for the wider subnets. "
                 "distinct_nontrivial = distinct (bits, count, server inside/after the assigned range) pool classes that "
-                "passed plus distinct lookup outcome classes observed and confirmed."
+                "passed plus distinct lookup outcome classes observed and confirmed. Engine A: real iodined on 16 fixed + seeded tunnel "
+                "networks (incl. addresses of 15 characters, server not the first host, /30): model clients log in until VFUL; every "
+                "login reply must name the configured server address and width and a distinct usable in-subnet client address equal "
+                "to the one in the server's table for that slot, and a packet offered for a told address reaches exactly that session."
                 % (exh_lo, "" if exh_lo == 16 else " (the quick tier samples /16../%d)" % (exh_lo - 1)))
     res.assumptions = [
         "reference written from the property text; which in-subnet addresses are chosen is not prescribed",
@@ -50,6 +152,34 @@ def run(ctx):
         unitrun.run_sharded(res, "C18", drv, sh,
                             lambda i: ["run", i, sh, ctx.seed, exh_lo, nrand_mid, nrand_big, nbases, rounds],
                             jobs=sh, timeout=1200)
+        # Engine A: the addresses as told to the clients
+        import random
+        from vflib import simrun
+        rng = random.Random(ctx.seed * 1801 + 18)
+        nets = list(NETS)
+        for _ in range(ctx.pick(16, 600)):
+            bits = rng.choice([24, 25, 26, 27, 27, 28, 28, 29, 29, 30, 16, 8])
+            base = rng.choice([(10, rng.randint(0, 255), rng.randint(0, 255)), (192, 168, rng.randint(100, 255)), (172, rng.randint(16, 31), rng.randint(100, 255)),
+                               (100, rng.randint(100, 127), rng.randint(100, 255)), (203, 0, 113), (rng.randint(100, 223), rng.randint(100, 255), rng.randint(100, 255))])
+            size = 1 << (32 - min(max(bits, 24), 30))
+            lo = rng.randrange(0, 256, size)
+            host = lo + rng.randint(1, size - 2)
+            nets.append("%d.%d.%d.%d/%d" % (base[0], base[1], base[2], host, bits))
+        plist = [{"idx": i, "seed": ctx.seed * 100000 + i, "rseed": rng.getrandbits(32), "tun": t} for i, t in enumerate(nets)]
+        sysres = core.Result()
+        simrun.run_scenarios(sysres, b, scn_assign, plist, jobs=ctx.jobs)
+        simrun.finalize_sets(sysres)
+        res.violations += sysres.violations
+        res.harness_errors += sysres.harness_errors
+        res.evaluations += sysres.evaluations
+        res.inconclusive += sysres.inconclusive
+        for kk, vv in sysres.inconclusive_why.items():
+            res.inconclusive_why[kk] = res.inconclusive_why.get(kk, 0) + vv
+        for sig in sysres.nontrivial:
+            res.nt(sig)
+        for kk, vv in sysres.extra.items():
+            res.extra["engine_a_" + kk] = vv
+        res.samples += sysres.samples[:2]
     for v in res.violations:
         if isinstance(v.witness, dict):
             v.witness.setdefault("seed", ctx.seed)
